@@ -112,6 +112,8 @@ type LockInv struct {
 	Lock string
 	E    *Expr
 	Text string
+	// lockrely only: the functions that make up the one owner thread (exempt from the guarantee, may assume the rely)
+	Owners []string
 }
 
 type InterfaceContract struct {
@@ -130,6 +132,7 @@ type ContractFile struct {
 	TypeInvs   map[string]*TypeInv
 	Guarded    []*GuardedBy
 	LockInvs   []*LockInv
+	LockRelys  []*LockInv
 	LockLevels [][2]string
 	Ifaces     map[string]*InterfaceContract
 	FuncFields map[string][]string  // "Type.field" -> lock classes any function stored in the field may acquire
@@ -141,7 +144,7 @@ type ContractFile struct {
 }
 
 var itemKeywords = map[string]bool{"spec": true, "lemma": true, "axiom": true, "typeinv": true, "interface": true,
-	"ghost": true, "guarded_by": true, "lockinv": true, "locklevel": true, "func": true, "const": true, "props": true, "extern": true, "canary": true, "funcfield": true}
+	"ghost": true, "guarded_by": true, "lockinv": true, "lockrely": true, "locklevel": true, "func": true, "const": true, "props": true, "extern": true, "canary": true, "funcfield": true}
 
 var clauseKeywords = map[string]bool{"mode": true, "instances": true, "requires": true, "ensures": true, "modifies": true,
 	"pure": true, "trusted": true, "holds": true, "acquires": true, "releases": true, "decreases": true, "case": true, "use": true,
@@ -325,6 +328,24 @@ func ParseContractText(data, path, pkg string) (*ContractFile, error) {
 					return nil, fail("%v", err)
 				}
 				cf.LockInvs = append(cf.LockInvs, &LockInv{Type: tl[:dot], Lock: tl[dot+1:], E: e, Text: strings.TrimSpace(rest[idx+1:])})
+			case "lockrely":
+				// lockrely T.lock owner F1, F2: R   -- R is a two-state relation (old(...) = state at the earlier point) that every
+				// critical section of a NON-owner function satisfies between its Lock and Unlock (checked); owner functions, which
+				// together form one thread, may assume R between one of their critical sections and the next
+				idx := strings.Index(rest, ":")
+				if idx < 0 {
+					return nil, fail("lockrely T.lock owner F1, F2: expr")
+				}
+				head := strings.Fields(strings.ReplaceAll(rest[:idx], ",", " "))
+				if len(head) < 3 || head[1] != "owner" || !strings.Contains(head[0], ".") {
+					return nil, fail("lockrely T.lock owner F1, F2: expr")
+				}
+				dot := strings.Index(head[0], ".")
+				e, err := parseExpr(rest[idx+1:])
+				if err != nil {
+					return nil, fail("%v", err)
+				}
+				cf.LockRelys = append(cf.LockRelys, &LockInv{Type: head[0][:dot], Lock: head[0][dot+1:], E: e, Text: strings.TrimSpace(rest[idx+1:]), Owners: head[2:]})
 			case "locklevel":
 				parts := strings.Split(rest, "<")
 				for i := 0; i+1 < len(parts); i++ {
